@@ -1,5 +1,6 @@
 import Nstd.Common.Basic
 import Nstd.Path.Model
+import Nstd.Path.FsLib
 /-
   Line protocol of the Path area (property C19).  Path ops are stateless:
      dir <hex> | base <hex> <hexext> | stem <hex> <hexext> | ext <hex> | simp <hex> |
@@ -29,8 +30,160 @@ def pathOp (ws : List String) : Option String :=
       if okStr f && okStr t then pure (toHex (getRelativePath f t)) else none
   | _ => none
 
+/-! ### file-system ops
+
+  World: `/s` (scratch, the working directory) and `/o` (the OUTSIDE sentinel: file `of` = "OUT",
+  directory `od` with file `x` = "X").  Every fs op answers `<result> | <snapshot>`; the snapshot lists
+  every entry of the world: `d:<path>`, `f:<path>:<bytes>`, `l:<path>:<target>` (hex; order irrelevant).
+     fsmkdir p | fsmkfile p data | fssymlink target p        raw system calls (set-up)
+     fscreate p | fscreatef p k | fscreateabs p              Directory::create (k-th mkdir fails)
+     fsrmdir p rec | fsunlink p | fsrename a b fie | fscopy a b fie | fscopyf a b fie mode
+     fsexists p | fsreadall p | fsls p | fsfile p flags script
+-/
+
+def initFs : Fs :=
+  ⟨[([[115]], .dir), ([[111]], .dir), ([[111], [111, 102]], .file [79, 85, 84]),
+    ([[111], [111, 100]], .dir), ([[111], [111, 100], [120]], .file [88])]⟩
+
+def cpathHex (p : CPath) : String := toHex (([47] : Bytes).intercalate p)
+
+def snapshot (fs : Fs) : String :=
+  " ".intercalate (fs.ents.map (fun (p, e) =>
+    match e with
+    | .dir => s!"d:{cpathHex p}"
+    | .file d => s!"f:{cpathHex p}:{toHex d}"
+    | .link t => s!"l:{cpathHex p}:{toHex t}"))
+
+def b01 (b : Bool) : String := if b then "1" else "0"
+
+/-- fs paths: C strings without backslash (POSIX treats it as an ordinary byte, File.cpp as a separator) -/
+def lexDepth : List Bytes → Int → Option Int
+  | [], d => some d
+  | c :: rest, d =>
+    if c = [46] then lexDepth rest d
+    else if c = dotdot then (if d - 1 < 0 then none else lexDepth rest (d - 1))
+    else lexDepth rest (d + 1)
+
+/-- the path does not lexically climb above the world root (which is a scratch directory in reality) -/
+def lexInside (b : Bytes) : Bool := (lexDepth (chunks b) (if startsWith47 b then 0 else 1)).isSome
+
+def okFsPath (b : Bytes) : Bool := b.all (fun c => c != 0 && c != 92) && lexInside b
+
+/-- last component is a name (rmdir/unlink/rename of `.`/`..`/the root have their own errno rules: outside) -/
+def lastIsName (b : Bytes) : Bool :=
+  match (chunks b).getLast? with
+  | some c => c != [46] && c != dotdot
+  | none => false
+
+def parseBool (s : String) : Option Bool :=
+  if s == "0" then some false else if s == "1" then some true else none
+
+/-- script of one File object: `w<hex>` write, `s<whence>:<offset>` seek, `r` readAll, `z` size -/
+def runScript (fs : Fs) (fd : Fd) : List String → Fs × String
+  | [] => (fs, "")
+  | it :: rest =>
+    let c := it.take 1
+    let arg := (it.drop 1).toString
+    if c == "w" then
+      match fromHex arg with
+      | none => (fs, " bad")
+      | some d =>
+        let (fs', fd', ok) := fileWrite fs fd d
+        let (fs'', out) := runScript fs' fd' rest
+        (fs'', s!" w={b01 ok}" ++ out)
+    else if c == "r" then
+      let (fd', r) := fileReadAll fs fd
+      let (fs'', out) := runScript fs fd' rest
+      (fs'', (match r with | some d => s!" r={toHex d}" | none => " r=fail") ++ out)
+    else if c == "z" then
+      let (fd', r) := fileSize fs fd
+      let (fs'', out) := runScript fs fd' rest
+      (fs'', (match r with | some n => s!" z={n}" | none => " z=-1") ++ out)
+    else if c == "s" then
+      match arg.splitOn ":" with
+      | [w, o] =>
+        match (if w == "0" then some Whence.set else if w == "1" then some Whence.cur else if w == "2" then some Whence.end_ else none), o.toInt? with
+        | some wh, some off =>
+          let (fd', r) := fileSeek fs fd off wh
+          let (fs'', out) := runScript fs fd' rest
+          (fs'', (match r with | some n => s!" s={n}" | none => " s=-1") ++ out)
+        | _, _ => (fs, " bad")
+      | _ => (fs, " bad")
+    else (fs, " bad")
+
+def fsOp (fs : Fs) (ws : List String) : Option (Fs × String) :=
+  match ws with
+  | ["fsmkdir", p] => do
+      let p ← fromHex p; if !okFsPath p then none
+      let (fs', r) := sysMkdir fs p
+      pure (fs', b01 (isOk r))
+  | ["fsmkfile", p, d] => do
+      let p ← fromHex p; let d ← fromHex d; if !okFsPath p then none
+      match sysOpen fs p { acc := .wronly, creat := true, trunc := true } with
+      | (fs', .error _) => pure (fs', "0")
+      | (fs', .ok fd) => let (fs'', _, _) := sysWrite fs' fd d; pure (fs'', "1")
+  | ["fssymlink", t, p] => do
+      let t ← fromHex t; let p ← fromHex p; if !(okFsPath p && okFsPath t) then none
+      let (fs', r) := sysSymlink fs t p
+      pure (fs', b01 (isOk r))
+  | ["fscreate", p] => do
+      let p ← fromHex p; if !okFsPath p then none
+      let (fs', r, _) := dirCreateTop fs p none
+      pure (fs', b01 r)
+  | ["fscreateabs", p] => do
+      let p ← fromHex p; if !okFsPath p || startsWith47 p then none
+      let (fs', r, _) := dirCreateTop fs ([47, 115, 47] ++ p) none
+      pure (fs', b01 r)
+  | ["fscreatef", p, k] => do
+      let p ← fromHex p; let k ← k.toNat?; if !okFsPath p then none
+      let (fs', r, fired) := dirCreateTop fs p (some k)
+      pure (fs', s!"{b01 r} fired={fired}")
+  | ["fsrmdir", p, r] => do
+      let p ← fromHex p; let r ← parseBool r; if !(okFsPath p && lastIsName p) then none
+      let (fs', ok) := dirUnlinkTop fs p r
+      pure (fs', b01 ok)
+  | ["fsunlink", p] => do
+      let p ← fromHex p; if !(okFsPath p && lastIsName p) then none
+      let (fs', ok) := fileUnlink fs p
+      pure (fs', b01 ok)
+  | ["fsrename", a, b, f] => do
+      let a ← fromHex a; let b ← fromHex b; let f ← parseBool f
+      if !(okFsPath a && okFsPath b && lastIsName a && lastIsName b) then none
+      let (fs', ok) := fileRename fs a b f
+      pure (fs', b01 ok)
+  | ["fscopy", a, b, f] => do
+      let a ← fromHex a; let b ← fromHex b; let f ← parseBool f
+      if !(okFsPath a && okFsPath b && lastIsName b) then none
+      let (fs', ok, _) := fileCopy fs a b f .none
+      pure (fs', b01 ok)
+  | ["fscopyf", a, b, f, m] => do
+      let a ← fromHex a; let b ← fromHex b; let f ← parseBool f
+      let m ← (if m == "0" then some SfFault.fail else if m == "1" then some SfFault.half else none)
+      if !(okFsPath a && okFsPath b && lastIsName b) then none
+      let (fs', ok, fired) := fileCopy fs a b f m
+      pure (fs', s!"{b01 ok} fired={b01 fired}")
+  | ["fsexists", p] => do
+      let p ← fromHex p; if !okFsPath p then none
+      pure (fs, s!"{b01 (fileExists fs p)} {b01 (dirExists fs p)}")
+  | ["fsreadall", p] => do
+      let p ← fromHex p; if !okFsPath p then none
+      pure (fs, match fileReadAllPath fs p with | some d => s!"1 {toHex d}" | none => "0")
+  | ["fsls", p] => do
+      let p ← fromHex p; if !okFsPath p then none
+      pure (fs, match dirList fs p with
+        | some l => " ".intercalate ("ls=1" :: l.map (fun (n, d) => s!"{toHex n}:{b01 d}"))
+        | none => "ls=0")
+  | ["fsfile", p, flags, script] => do
+      let p ← fromHex p; let flags ← flags.toNat?; if !okFsPath p || flags ≥ 16 then none
+      match fileOpen fs p flags with
+      | (fs', none) => pure (fs', "open=0")
+      | (fs', some fd) =>
+        let (fs'', out) := runScript fs' fd (script.splitOn ",")
+        pure (fs'', "open=1" ++ out)
+  | _ => none
+
 structure St where
-  dummy : Unit := ()
+  fs : Fs := initFs
 
 def init0 : St := {}
 
@@ -40,7 +193,10 @@ def stepLine (st : St) (ws : List String) : St × String :=
   | _ =>
     match pathOp ws with
     | some out => (st, out)
-    | none => (st, "bad-op")
+    | none =>
+      match fsOp st.fs ws with
+      | some (fs', out) => ({ fs := fs' }, out ++ " | " ++ snapshot fs')
+      | none => (st, "bad-op")
 
 end Nstd.Path
 
